@@ -123,6 +123,7 @@ type Monitor struct {
 	OwnerType     string
 	MuField       string
 	TrustSections []string // functions whose critical sections are not verified (listed as trusted)
+	DisciplineOnly bool    // only the lock-discipline obligation is generated: Lock/Unlock keep their library meaning in units
 	Unpublished   []string // functions allowed to touch protected fields of an object they have not yet published
 	File       string
 	Line       int
@@ -154,7 +155,7 @@ var clauseKeywords = map[string]bool{
 	"ghost": true, "loop": true, "nopanic": true, "trusted": true, "panics": true, "track": true, "global-invariant": true,
 	"monitor": true, "invariant": true, "transition": true, "lemma": true, "axiom": true, "inline": true, "assert": true,
 	"props": true, "params": true, "protects": true, "snapshot": true, "abstract": true, "callee": true, "ghostvar": true, "on": true, "state": true, "closeonly": true, "assume": true, "freshcounter": true,
-	"trust-section": true, "unpublished": true, "holds": true, "constant": true, "heapfacts": true, "rangeloop": true,
+	"trust-section": true, "unpublished": true, "holds": true, "constant": true, "heapfacts": true, "rangeloop": true, "discipline-only": true,
 }
 
 type rawClause struct {
@@ -386,6 +387,11 @@ func (db *SpecDB) LoadSpecFile(path, pkgPath string) error {
 				return fmt.Errorf("%s:%d: %v", path, rc.line, err)
 			}
 			curMon.StateExpr = e
+		case "discipline-only":
+			if curMon == nil {
+				return fmt.Errorf("%s:%d: discipline-only outside monitor", path, rc.line)
+			}
+			curMon.DisciplineOnly = true
 		case "trust-section", "unpublished":
 			if curMon == nil {
 				return fmt.Errorf("%s:%d: %s outside monitor", path, rc.line, rc.kw)
